@@ -21,6 +21,6 @@ CONSTANTS
   ViaClasses = {"transaction", "with_kernel", "partial", "block"}
   CbFeeClasses = {"cf0", "cf1", "cftyp", "cfmax40", "cfmax64"}
   AlgStride = 1
-  CbStride = 2
-  ShapeStride = 19
+  CbStride = 4
+  ShapeStride = 37
 INVARIANTS TypeOK BuilderBalances CoinbaseOK EmitShape
